@@ -315,6 +315,28 @@ func driveC04(t *testing.T, out *vEmitter) {
 							map[string]interface{}{"config": c.name, "token": ts.label, "path": path, "got": s.Email, "claim": em})
 					}
 				}
+				if s != nil && c.profile == "" {
+					// the groups are those of THIS token's claim (none when it has none), on every path
+					var want []string
+					known := true
+					switch g := ts.claims["groups"].(type) {
+					case nil:
+					case []interface{}:
+						for _, x := range g {
+							if xs, ok := x.(string); ok {
+								want = append(want, xs)
+							} else {
+								known = false
+							}
+						}
+					default:
+						known = false
+					}
+					if known && strings.Join(s.Groups, "\x00") != strings.Join(want, "\x00") {
+						out.Violation("oidc/groups-not-from-token", "the session's groups are not those of the verified token's groups claim",
+							map[string]interface{}{"config": c.name, "token": ts.label, "path": path, "got": s.Groups, "claim": want})
+					}
+				}
 				if s != nil && c.profile == "ok" {
 					if em, ok := ts.claims["email"].(string); ok && s.Email != em {
 						out.Violation("oidc/profile-overrides-token", "a claim present in the token was taken from the profile endpoint",
